@@ -29,7 +29,11 @@ func metaCompare(env *core.Env, root string, p, q string, strict bool, what stri
 	r1 := raGenerate(env, root, p, false)
 	r2 := raGenerate(env, root, q, false)
 	for _, r := range []*raRun{r1, r2} {
-		if r.Res.Class() == sut.ClassFault || r.Res.Class() == sut.ClassTimeout {
+		if r.Res.Class() == sut.ClassTimeout {
+			x := core.Incon("watchdog hit, not judged: %s", describe(r.Res))
+			return &x
+		}
+		if r.Res.Class() == sut.ClassFault {
 			x := core.Viol("crash", "generate crashed: %s", describe(r.Res))
 			return &x
 		}
@@ -77,7 +81,10 @@ func metaCheck(env *core.Env, cc core.Case) core.Verdict {
 	case "include-flags":
 		// an include file with a flags line must be rejected, not merged
 		r := raGenerate(env, root, p.Main, false)
-		if r.Res.Class() == sut.ClassFault || r.Res.Class() == sut.ClassTimeout {
+		if r.Res.Class() == sut.ClassTimeout {
+			return core.Incon("watchdog hit, not judged: %s", describe(r.Res))
+		}
+		if r.Res.Class() == sut.ClassFault {
 			return core.Viol("crash", "generate crashed: %s", describe(r.Res))
 		}
 		if r.Res.Exit == 0 || len(r.Out) > 0 {
